@@ -1,4 +1,5 @@
 import NomtModel.Store.ExtRangePhase
+import NomtModel.Store.ExtRangeSorted
 import NomtModel.Store.ExtRangeToy
 /-!
 # C13 — the multi-worker split of the beatree update and its extend-range protocol
@@ -169,6 +170,27 @@ theorem T13_seeded_high_max_counterexample :
     ([1, 2, 3].all fun n => [(false, 1000), (true, 1)].all fun p =>
       ((Toy.stage {} Toy.lvlC Toy.csC n p.1 p.2).map fun r => r.1.flatten) == some (Toy.specKeys Toy.lvlC Toy.csC)) = true := by
   refine ⟨?_, ?_, ?_⟩ <;> decide +kernel
+
+/-- **T13.worker_keys_once_every_schedule** — what DOES hold about the list handed to `filter_*_changeset`, for every updater,
+level, change list, worker count and EVERY interleaving: every worker's tracker keeps strictly ascending keys (`SInv`; the
+mirror's `upsert` / `extend` / `pop_first` keep the order the `BTreeMap` has by construction), so every worker hands every
+separator to `apply_*_changes` AT MOST ONCE and in key order — the premise `hasc` of Q38's `T1_filter_disjoint_workers`.  The
+other premise (`hdis`: no separator in two workers' lists) is false in general (`T13_trackers_disjoint_counterexample`): a
+separator can occur in the lists of two workers.  That it then occurs exactly twice, once with `Some` and once with `None`
+(Q38's `PairInv`, the contract of the duplicate branch), is what the real code showed in every run (`extrange` oracle: the
+stage does not panic in `filter_*_changeset`, the content is the sequential one) and is NOT proved. -/
+theorem T13_worker_keys_once_every_schedule {σ N C : Type} (U : Upd σ N C) (cfg : Cfg) (hs : cfg.staleHigh = false)
+    (hm : cfg.highMax = false) (db : List (DbN N)) (cs : List (Nat × C)) (look : Nat → Option Nat)
+    (hlook : ∀ k s, look k = some s → s ≤ k) (hasc : Asc (cs.map (·.1))) (hne : cs ≠ []) (count : Nat) (s : List Nat) :
+    match runSched U cfg db s (initG U cfg db cs (prepareWorkers look (cs.map (·.1)) count)) with
+    | .inr g' => ∀ i, (workerChanges (g'.ws i)).1.Pairwise (fun a b => a.1 < b.1)
+    | .inl _ => True := by
+  have hc := (T13_prepare_workers_partition look hlook (cs.map (·.1)) hasc (by simpa using hne) count).1
+  have := sinv_runSched U cfg db hs hm s _ (inv_init U cfg db cs (cs.map (·.1)) _ none 0 false hc)
+    (sinv_init U cfg db cs _)
+  cases hr : runSched U cfg db s (initG U cfg db cs (prepareWorkers look (cs.map (·.1)) count)) with
+  | inl _ => trivial
+  | inr g' => rw [hr] at this; exact fun i => workerChanges_sorted _ (this i)
 
 /-- FULL statement asked for — `T13_trackers_disjoint_every_schedule` — FALSE (see the two counterexamples below): "when the
 workers have returned no separator is held by two workers' trackers". -/
